@@ -80,6 +80,83 @@ Theorem C07_names_in_period_view : forall p r d n,
 Proof. exact names_in_period_spec. Qed.
 Print Assumptions C07_names_in_period_view.
 
+(* 1e. the boolean incidence arrays the simulators (fords/simulators.py, stacked_time/simulators.py) and the frame
+       splitter read, over ANY history of calls on a fresh plan: an entry is True iff its period is in the base span and
+       the LAST elementary write covering (name, period) had status=True; points switched off by status=False read
+       False like points never written.  The element formula is the one in the source (gen/PlanLoopGen.v, regenerated
+       on every run from get_register_as_bool_array and _is_active_status) *)
+From Verif Require Import gen.PlanLoopGen proofs.PlanLoopProofs.
+
+Theorem C07_bool_array_element_is_source_formula : forall p row d,
+  point_bool p row d
+  = gen_point_value status_bool st_is_none st_is_true st_is_false (negb (in_span p d))
+                    (nth (Z.to_nat (d - pl_start p)) row SNone).
+Proof. exact point_bool_generated. Qed.
+Print Assumptions C07_bool_array_element_is_source_formula.
+
+Theorem C07_is_active_is_source_formula : forall s,
+  is_active s = gen_is_active status_bool st_is_none st_is_true st_is_false s.
+Proof. exact is_active_generated. Qed.
+Print Assumptions C07_is_active_is_source_formula.
+
+Theorem C07_bool_array_last_write_wins : forall start nper nvar nshock cs r names periods i j,
+  i < length names -> j < length periods ->
+  let p0 := new_plan start nper nvar nshock in
+  let p := fst (apply_calls p0 cs) in
+  let d := nth j periods 0%Z in
+  nth j (nth i (bool_array p r names periods) []) false = true <->
+  in_span p0 d = true /\
+  after_writes r (nth i names 0) (Z.to_nat (d - start)) SNone (flat_map (ewrites_of_call p0) cs) = STrue.
+Proof. exact bool_array_last_write_wins. Qed.
+Print Assumptions C07_bool_array_last_write_wins.
+
+Theorem C07_switched_off_reads_false : forall start nper nvar nshock cs r names periods i j,
+  i < length names -> j < length periods ->
+  let p0 := new_plan start nper nvar nshock in
+  after_writes r (nth i names 0) (Z.to_nat (nth j periods 0%Z - start)) SNone (flat_map (ewrites_of_call p0) cs) <> STrue ->
+  nth j (nth i (bool_array (fst (apply_calls p0 cs)) r names periods) []) false = false.
+Proof. exact switched_off_reads_false. Qed.
+Print Assumptions C07_switched_off_reads_false.
+
+(* ====================================================================================================== *)
+(* 1'. the loop over variants of Simultaneous.simulate (model/SimVariants.v over gen/PlanLoopGen.v)         *)
+(* ====================================================================================================== *)
+From Verif Require Import model.Variants model.SimVariants.
+
+(* variant k of the result of simulate(...) on a model with any number of variants and a databox with any number of
+   columns = the one-variant simulation (sim1: create_frames, initial guess, frame loop; any simulator) of model
+   variant k, reading the exogenized values from, and working on, variant k of the input data; etl = exhaust_then_last *)
+Theorem C07_variant_loop_pointwise : forall (MV DS PL : Type) (dm : MV) (dd : DS) (sim1 : MV -> PL -> DS -> DS -> DS)
+    nv ms pl ds k, k < nv ->
+  nth k (simulate_variants MV DS PL dm dd sim1 nv ms pl ds) dd = sim1 (etl MV ms dm k) pl (etl DS ds dd k) (etl DS ds dd k).
+Proof. exact variant_pointwise. Qed.
+Print Assumptions C07_variant_loop_pointwise.
+
+Theorem C07_variant_equals_single_variant_call : forall (MV DS PL : Type) (dm : MV) (dd : DS) (sim1 : MV -> PL -> DS -> DS -> DS)
+    nv ms pl ds k, k < nv ->
+  nth k (simulate_variants MV DS PL dm dd sim1 nv ms pl ds) dd
+  = nth 0 (simulate_variants MV DS PL dm dd sim1 1 [etl MV ms dm k] pl [etl DS ds dd k]) dd.
+Proof. exact variant_equals_singleton. Qed.
+Print Assumptions C07_variant_equals_single_variant_call.
+
+Theorem C07_other_variants_irrelevant : forall (MV DS PL : Type) (dm : MV) (dd : DS) (sim1 : MV -> PL -> DS -> DS -> DS)
+    nv ms ms' pl ds ds' k, k < nv ->
+  etl MV ms dm k = etl MV ms' dm k -> etl DS ds dd k = etl DS ds' dd k ->
+  nth k (simulate_variants MV DS PL dm dd sim1 nv ms pl ds) dd = nth k (simulate_variants MV DS PL dm dd sim1 nv ms' pl ds') dd.
+Proof. exact other_variants_irrelevant. Qed.
+Print Assumptions C07_other_variants_irrelevant.
+
+(* the clause "every exogenized variable equals its input value at every exogenized date" for every variant: given
+   that the one-variant simulator leaves the values of ITS input_data_array in the exogenized cells (3a for
+   first_order, 2b for stacked_time), variant k of the result carries variant k's input values there *)
+Theorem C07_every_variant_hits_its_own_input : forall (MV DS PL : Type) (dm : MV) (dd : DS)
+    (sim1 : MV -> PL -> DS -> DS -> DS) (cell val : Type) (get : DS -> cell -> val) (exogenized : PL -> cell -> bool),
+  (forall m pl input work c, exogenized pl c = true -> get (sim1 m pl input work) c = get input c) ->
+  forall nv ms pl ds k c, k < nv -> k < length ds -> exogenized pl c = true ->
+  get (nth k (simulate_variants MV DS PL dm dd sim1 nv ms pl ds) dd) c = get (nth k ds dd) c.
+Proof. exact every_variant_hits_its_own_input. Qed.
+Print Assumptions C07_every_variant_hits_its_own_input.
+
 (* ====================================================================================================== *)
 (* 2. method stacked_time: swapping unknown cells (model/Stacked.v of C06)                                  *)
 (* ====================================================================================================== *)
